@@ -436,7 +436,7 @@ def inconsistent(rng, kind):
         if r < 0.3:
             return wire.can_payload(rng, 8, kind == 'canfd', datalen=rng.choice([9, 9 + rng.randrange(200), 254, 255]))
         if r < 0.5:
-            return wire.can_payload(rng, 4, kind == 'canfd', flags=rng.choice([1, 2, 0x80, 0x100, 0x200, 0x3FF]))
+            return wire.can_payload(rng, 4, kind == 'canfd', flags=rng.choice([1 << rng.randrange(10), 0x3FF, 0x401, rng.randrange(1, 0x400)]))
         if r < 0.7:
             return wire.can_payload(rng, 4, kind == 'canfd', errpos=rng.randrange(1, 65536))
         return wire.can_payload(rng, 0)[:rng.randrange(0, 16)]
@@ -448,7 +448,7 @@ def inconsistent(rng, kind):
         if r < 0.4:
             return wire.eth_payload(rng, 10, datalen=rng.choice([11, 11 + rng.randrange(60000), 65529, 65530, 65534, 65535]))
         if r < 0.7:
-            return wire.eth_payload(rng, 10, flags=rng.choice([1, 2, 8, 0x10, 0x20, 0x3B]))
+            return wire.eth_payload(rng, 10, flags=rng.choice([1, 2, 8, 0x10, 0x20, 0x3B, 0x81, 0x48]))
         return wire.eth_payload(rng, 0)[:rng.randrange(0, 6)]
     if kind == 'analog':
         return wire.analog_payload(rng, 0)[:rng.randrange(0, 16)]
